@@ -136,7 +136,7 @@ package router
 // flight), with a private copy of the question; nothing on this path blocks or contacts the upstream.
 //@ func (r *router) asyncSingleFlightPrefetch(q *dnsmsg.Question, remoteAddr netip.Addr, u *upstreamWrapper)
 //@   props C19 C20
-//@   requires r != nil && q != nil && r.cache != nil && r.prefetch != nil && r.prefetch.queue != nil
+//@   requires r != nil && q != nil && r.cache != nil && r.prefetch != nil && r.prefetch.queue != nil && u != nil && r.cache.logger != nil && r.logger != nil && r.prefetchTotal != nil && r.ctx != nil
 //@   ghost nGo int = 0
 //@   ghost nRes int = 0
 //@   ghost okRes bool = false
@@ -187,7 +187,7 @@ package router
 //@ func (r *router) handleReq(ctx context.Context, q *dnsmsg.Question, rc *RequestContext)
 //@   props C03 C10 C12 C01
 //@   requires r != nil && q != nil && rc != nil && r.cache != nil && r.cache.logger != nil && forall(k, 0, len(r.rules), r.rules[k] != nil)
-//@   requires r.queryCacheHitTotal != nil && r.prefetch != nil && r.prefetch.queue != nil
+//@   requires r.queryCacheHitTotal != nil && r.prefetch != nil && r.prefetch.queue != nil && r.logger != nil && r.prefetchTotal != nil && r.ctx != nil
 //@   modifies rc.Response.Msg, rc.Response.RuleIdx, rc.Response.Cached, rc.Response.IpMark, obj(r.prefetch.queue)
 //@   ensures rc.Response.Msg != nil && fresh(rc.Response.Msg) && wfMsg(rc.Response.Msg)
 //@   ensures [C12:no-upstream-opt] noOPT(rc.Response.Msg.Additionals)
@@ -212,7 +212,7 @@ package router
 //@ func (r *router) handleReqMsg(ctx context.Context, m *dnsmsg.Msg, rc *RequestContext)
 //@   props C03 C10 C12 C01
 //@   requires r != nil && m != nil && rc != nil && wfMsg(m) && r.cache != nil && r.cache.logger != nil && forall(k, 0, len(r.rules), r.rules[k] != nil)
-//@   requires r.queryCacheHitTotal != nil && r.logger != nil && r.prefetch != nil && r.prefetch.queue != nil
+//@   requires r.queryCacheHitTotal != nil && r.logger != nil && r.prefetch != nil && r.prefetch.queue != nil && r.prefetchTotal != nil && r.ctx != nil
 //@   modifies rc.Response.Msg, rc.Response.RuleIdx, rc.Response.Cached, rc.Response.IpMark, obj(r.prefetch.queue)
 //@   ensures rc.Response.Msg != nil && wfMsg(rc.Response.Msg)
 //@   ensures [C09:packable] optSmall(rc.Response.Msg) && smallMsg(rc.Response.Msg)
@@ -261,7 +261,7 @@ package router
 //@ func (r *router) handleServerReq(m *dnsmsg.Msg, rc *RequestContext)
 //@   props C03 C01
 //@   requires r != nil && m != nil && rc != nil && wfMsg(m) && r.cache != nil && r.cache.logger != nil && forall(k, 0, len(r.rules), r.rules[k] != nil)
-//@   requires r.queryCacheHitTotal != nil && r.logger != nil && r.queryTotal != nil && r.prefetch != nil && r.prefetch.queue != nil
+//@   requires r.queryCacheHitTotal != nil && r.logger != nil && r.queryTotal != nil && r.prefetch != nil && r.prefetch.queue != nil && r.prefetchTotal != nil && r.ctx != nil
 //@   modifies *
 //@   ensures [C03:always-a-response] rc.Response.Msg != nil && wfMsg(rc.Response.Msg)
 //@   ensures [C09:packable] optSmall(rc.Response.Msg) && smallMsg(rc.Response.Msg)
@@ -269,7 +269,7 @@ package router
 
 // ---- listeners: one response write per handled request ------------------------------------------------
 
-//@ spec func routerReady(r *router) bool = r != nil && r.cache != nil && r.cache.logger != nil && forall(k, 0, len(r.rules), r.rules[k] != nil) && r.queryCacheHitTotal != nil && r.logger != nil && r.queryTotal != nil && r.prefetch != nil && r.prefetch.queue != nil
+//@ spec func routerReady(r *router) bool = r != nil && r.cache != nil && r.cache.logger != nil && forall(k, 0, len(r.rules), r.rules[k] != nil) && r.queryCacheHitTotal != nil && r.logger != nil && r.queryTotal != nil && r.prefetch != nil && r.prefetch.queue != nil && r.prefetchTotal != nil && r.ctx != nil
 // the payload size the client advertised: class of the last OPT record of the query, at least 512
 //@ spec func lastOPTAt(m *dnsmsg.Msg, k int) bool = 0 <= k && k < len(m.Additionals) && isOPT(m.Additionals[k]) && forall(j, k+1, len(m.Additionals), !isOPT(m.Additionals[j]))
 
@@ -282,7 +282,9 @@ package router
 //@   props C03 C09 C01
 //@   requires s != nil && routerReady(s.r) && m != nil && rc != nil && wfMsg(m)
 //@   ghost nW int = 0
+//@   ghost lastOpt int = -1 -- index of the last OPT record seen so far (witness for the loop invariant)
 //@   oncall writeResp: nW = nW + 1
+//@   onassign clientUdpSize in loop 1: lastOpt = rangeindex
 //@   modifies *
 //@   ensures [C03:exactly-one-write] nW == 1
 //@   callsite mustHaveRespB: [C09:udp-size-arg] arg3 == false && arg4 >= 512 && noOPT(m.Additionals) ==> arg4 == 512
@@ -290,7 +292,10 @@ package router
 //@   callsite writeResp: [C09:udp-limit] len(arg1) >= 12 && len(arg1) <= clientUdpSize
 //@   loop 1:
 //@     invariant clientUdpSize >= 0 && clientUdpSize <= 65535
-//@     invariant (forall(j, 0, rangeindex+1, !isOPT(m.Additionals[j])) && clientUdpSize == 0) || (exists(k, 0, rangeindex+1, isOPT(m.Additionals[k]) && forall(j, k+1, rangeindex+1, !isOPT(m.Additionals[j])) && clientUdpSize == int(ptrOf(m.Additionals[k], dnsmsg.ResourceHdr).Class)))
+//@     invariant -1 <= lastOpt && lastOpt <= rangeindex
+//@     invariant lastOpt == -1 ==> clientUdpSize == 0
+//@     invariant lastOpt >= 0 ==> isOPT(m.Additionals[lastOpt]) && clientUdpSize == int(ptrOf(m.Additionals[lastOpt], dnsmsg.ResourceHdr).Class)
+//@     invariant forall(j, lastOpt+1, rangeindex+1, !isOPT(m.Additionals[j]))
 
 //@ func (s *tcpServer) handleReq(c net.Conn, m *dnsmsg.Msg, rc *RequestContext)
 //@   props C03 C13 C01
